@@ -697,3 +697,44 @@ def clear_functions_rule(chk, facts, P, rule):
                    '%s() resets %s (%s) only on some of its paths: when it returns early the entries of the abandoned pass '
                    '(or of the previous file) stay in the list and reach the report' % (cn, g_, loc))
     return n
+
+
+def carry_pair_rule(chk, facts, rule):
+    """Mixed-radix positions (word count, position inside the word): where the inner part is corrected by one radix
+    (+= / -= ElemsPerFullWord) the word count of the same record moves by one the other way in the same block."""
+    chk.rule(rule, 'intpseudo.c, position = (FullWordCnt, LastWordFill): every correction of LastWordFill by the radix '
+             '(+= / -= ElemsPerFullWord) comes with the opposite step of FullWordCnt of the same record in the same block '
+             '(carry and borrow); without it a reservation or DUP group that wraps inside a word is one word too long or short',
+             min_instances=3)
+    u = facts.unit('intpseudo.c')
+    n = 0
+    for f in u.funcs.values():
+        if f.file != 'intpseudo.c' or f.entry is None:
+            continue
+        for b, blk in f.blocks.items():
+            for ln, ex in blk['elems']:
+                for m in walk_own(ex):
+                    if not (is_assign(m) and m[1] in ('+=', '-=')):
+                        continue
+                    t = nocast(m[2])
+                    if not (t[0] == 'm' and t[2].endswith('.LastWordFill') and any(
+                            isinstance(x, (list, tuple)) and x and x[0] == 'm' and x[2].endswith('.ElemsPerFullWord') for x in walk(m[3]))):
+                        continue
+                    n += 1
+                    base = nocast(t[1])
+                    want = '--' if m[1] == '+=' else '++'
+                    found = False
+                    for l2, ex2 in blk['elems']:
+                        for m2 in walk_own(ex2):
+                            t2 = nocast(m2[2]) if (is_incdec(m2) or is_assign(m2)) else None
+                            if t2 is None or not (t2[0] == 'm' and t2[2].endswith('.FullWordCnt') and nocast(t2[1]) == base):
+                                continue
+                            if is_incdec(m2) and want in m2[1]:
+                                found = True
+                            if is_assign(m2) and m2[1] == ('-=' if want == '--' else '+=') and const_val(nocast(m2[3])) == 1:
+                                found = True
+                    chk.ob(rule, 'intpseudo.c:%s:%s%s' % (f.name, show(t), m[1]), found, f.loc(ln),
+                           'with the word count stepped the other way' if found else
+                           '%s %s one radix, but FullWordCnt of %s is not stepped %s in the same block: the position is off by a '
+                           'whole word after a wrap' % (show(t), 'gains' if m[1] == '+=' else 'loses', show(base), 'down' if want == '--' else 'up'))
+    return n
